@@ -44,6 +44,22 @@ SetEasy(h, ep, en) ==
   /\ store' = [store EXCEPT ![h] = [@ EXCEPT !.ep = ep, !.en = en]]
   /\ last' = [op |-> "set_easy", h |-> h, shape |-> <<>>, arg |-> <<ep, en>>]
 
+(* ... or a new configuration (as enum member or as the plain string the library's  *)
+(* label type compares equal to) ...                                               *)
+SetConfig(h, sc, ec) ==
+  /\ calls < MaxCalls /\ calls' = calls + 1 /\ h \in DOMAIN store
+  /\ <<sc, ec>> # <<store[h].sc, store[h].ec>>
+  /\ store' = [store EXCEPT ![h] = [@ EXCEPT !.sc = sc, !.ec = ec]]
+  /\ last' = [op |-> "set_config", h |-> h, shape |-> <<>>, arg |-> <<sc, ec>>]
+(* ... or re-binds one of the (sorted) score arrays                                *)
+NewScores == {<<0, 2>>, <<1, 1, 3>>, <<2>>, <<0, 1, 2, 3>>}
+SetScores(h, cls, seq) ==
+  /\ calls < MaxCalls /\ calls' = calls + 1 /\ h \in DOMAIN store
+  /\ seq # (IF cls = "pos" THEN store[h].pos ELSE store[h].neg)
+  /\ store' = [store EXCEPT ![h] = IF cls = "pos" THEN [@ EXCEPT !.pos = seq] ELSE [@ EXCEPT !.neg = seq]]
+  /\ last' = [op |-> "set_scores", h |-> h, shape |-> <<>>, arg |-> <<cls, seq>>]
+Assignments == {"set_easy", "set_config", "set_scores"}
+
 (* argument arrays: instead of every array over the value set (9^n of them) the  *)
 (* machine picks a (seed, stride) pair and fills the array with the values        *)
 (* vals[(seed + i*stride) mod |vals|] - enough to vary content, cheap to enumerate *)
@@ -57,17 +73,22 @@ SNext == \/ \E h \in DOMAIN store, op \in QueryOps, shape \in Shapes :
               (op \in ScalarOps => shape = <<>>) /\ \E arg \in ArgsFor(op, shape) : Query(h, op, shape, arg)
          \/ \E h \in DOMAIN store : SwapCall(h)
          \/ \E h \in DOMAIN store, ep \in {0, 2}, en \in {0, 1, 3} : SetEasy(h, ep, en)
+         \/ \E h \in DOMAIN store, sc \in {"pos", "neg"}, ec \in {"pos", "neg"} : SetConfig(h, sc, ec)
+         \/ \E h \in DOMAIN store, cls \in {"pos", "neg"}, seq \in NewScores : SetScores(h, cls, seq)
 SSpec == SInit /\ [][SNext]_svars
 
 (* C10 as an action property of the specification itself                          *)
 IsQuery == last'.op \in QueryOps
 QueriesAreSideEffectFree == [][IsQuery => UNCHANGED store]_svars
 StoreOnlyGrows == [][\A h \in DOMAIN store : h \in DOMAIN store' /\
-                         (store'[h] = store[h] \/ (last'.op = "set_easy" /\ last'.h = h))]_svars
+                         (store'[h] = store[h] \/ (last'.op \in Assignments /\ last'.h = h))]_svars
 (* an attribute assignment changes exactly the assigned fields of exactly that object   *)
 SetEasyIsLocal == [][last'.op = "set_easy" /\ last' # last =>
                        /\ Len(store') = Len(store)
                        /\ \A h \in DOMAIN store :
                             /\ store'[h].pos = store[h].pos /\ store'[h].neg = store[h].neg
                             /\ store'[h].sc = store[h].sc /\ store'[h].ec = store[h].ec]_svars
+AssignmentsAreLocal == [][last'.op \in Assignments /\ last' # last =>
+                            /\ Len(store') = Len(store)
+                            /\ \A h \in DOMAIN store : h # last'.h => store'[h] = store[h]]_svars
 =============================================================================
